@@ -67,10 +67,17 @@ func load() {
 	}
 }
 
+var ufTab map[string]uint64
+
+func ufKey(name string, args []uint64) string { return fmt.Sprint(name, args) }
+
 func next(kind string) tapeValue {
 	mu.Lock()
 	defer mu.Unlock()
 	load()
+	for pos < len(vec.Tape) && vec.Tape[pos].Kind == "uf" {
+		pos++
+	}
 	if pos >= len(vec.Tape) {
 		panic(Desync{fmt.Sprintf("tape exhausted at %d asking for %s", pos, kind)})
 	}
@@ -80,6 +87,27 @@ func next(kind string) tapeValue {
 		panic(Desync{fmt.Sprintf("tape[%d] is %s(%s), native run asked for %s", pos-1, t.Kind, t.Name, kind)})
 	}
 	return t
+}
+
+// uf looks the application up in the table extracted from the solver's model; applications the symbolic run
+// never made are unconstrained and answer 0.
+func uf(name string, args []int) uint64 {
+	mu.Lock()
+	defer mu.Unlock()
+	load()
+	if ufTab == nil {
+		ufTab = map[string]uint64{}
+		for _, t := range vec.Tape {
+			if t.Kind == "uf" {
+				ufTab[ufKey(t.Name, t.Args)] = t.Val
+			}
+		}
+	}
+	a := make([]uint64, len(args))
+	for i, x := range args {
+		a[i] = uint64(x)
+	}
+	return ufTab[ufKey(name, a)]
 }
 
 func Int(name string) int       { return int(int64(next("int").Val)) }
@@ -124,8 +152,8 @@ func SliceInt(name string, maxLen, maxSpare, maxOff int) []int {
 	return arr[off : off+n : off+n+spare]
 }
 
-func UFInt(name string, args ...int) int   { return int(int64(next("uf").Val)) }
-func UFBool(name string, args ...int) bool { return next("uf").Val != 0 }
+func UFInt(name string, args ...int) int   { return int(int64(uf(name, args))) }
+func UFBool(name string, args ...int) bool { return uf(name, args) != 0 }
 
 func Assume(c bool) {
 	if !c {
